@@ -1,6 +1,6 @@
 (* Properties/C02.v — derived Equal is exactly structural equality.
    Statements only; proofs are in Go/EqualProofs.v. *)
-From Verif Require Import Go.Ty Go.Val Go.Equal Go.EqualProofs Go.CompareSpec Go.Canon Go.Invariance.
+From Verif Require Import Go.Ty Go.Val Go.Equal Go.EqualProofs Go.CompareSpec Go.Canon Go.Invariance Go.Clean.
 From Coq Require Import Permutation.
 
 (* For every type and all well-typed (acyclic, NaN-free) values the generated comparison — in
@@ -13,6 +13,15 @@ Theorem C02_equal_is_structural : forall x e md t y,
   (Equal.eqm e md t x y = Unsup \/ Equal.eqm e md t x y = lift (spec_eq e t x y)).
 Proof. exact eqm_spec. Qed.
 Print Assumptions C02_equal_is_structural.
+
+(* ... and with no alternative on every type without a pointer to an unnamed struct and without
+   a non-comparable unnamed struct below the root (the limitation the plugin documents): there the
+   generated function returns exactly structural equality *)
+Theorem C02_equal_is_structural_clean : forall t x y,
+  clean false true t = true -> has_type [] t x = true -> has_type [] t y = true ->
+  equal_model t x y = lift (spec_eq [] t x y).
+Proof. exact equal_is_structural_clean. Qed.
+Print Assumptions C02_equal_is_structural_clean.
 
 Theorem C02_equal_never_panics : forall t x y,
   has_type [] t x = true -> has_type [] t y = true ->
